@@ -288,3 +288,25 @@ func specCsigStats(m *gen.MsgSpec) (n, depth int) {
 var _ = rc.Int
 
 type verifierT = cose.Verifier
+
+// discardAny drops the retained raw header bytes of every layer of a decoded
+// value of any kind.
+func discardAny(v any) {
+	switch m := v.(type) {
+	case *cose.Sign1Message:
+		discardHeaders(&m.Headers)
+	case *cose.UntaggedSign1Message:
+		discardHeaders(&m.Headers)
+	case *cose.SignMessage:
+		discardHeaders(&m.Headers)
+		for _, s := range m.Signatures {
+			if s != nil {
+				discardHeaders(&s.Headers)
+			}
+		}
+	case *cose.Signature:
+		discardHeaders(&m.Headers)
+	case *cose.Countersignature:
+		discardHeaders(&m.Headers)
+	}
+}
